@@ -225,6 +225,18 @@ Definition rules_have_direct_when (sy : system) : bool :=
                                         | None => false
                                         end) (st_facts (l_state (snd kv)))) sy.
 
+(** D37: some rule id is used in two locations (the duplicate-id check of
+    searchRulesAncestors runs on the index's candidates, before the re-match). *)
+Definition rule_ids_of (l : loc) : list string :=
+  map fst (filter (fun f => match jget "rule" (snd f) with Some _ => true | None => false end)
+                  (st_facts (l_state l))).
+Fixpoint shared_rule_ids (sy : system) : bool :=
+  match sy with
+  | [] => false
+  | (_, l) :: r => existsb (fun id => existsb (fun kv => mem_str id (rule_ids_of (snd kv))) r) (rule_ids_of l) ||
+                   shared_rule_ids r
+  end.
+
 (** deep check: would the event make searchPairs fail somewhere?  Approximated
     by: it contains an unsortable array or a "?"-string. *)
 Fixpoint event_risky (ev : json) : bool :=
@@ -332,6 +344,7 @@ Definition kf_of (sy : system) (o : json) : list string :=
   else if String.eqb op "event" || String.eqb op "process" then
     ((if rules_have_propvar sy then ["D6"] else []) ++
      (if rules_have_direct_when sy then ["D30"] else []) ++
+     (if shared_rule_ids sy then ["D37"] else []) ++
      (if event_risky (jnorm (jget_d "event" o)) then ["D7"] else []))%list
   else [].
 
